@@ -17,7 +17,10 @@ class EpochChecker:
     one batch; over >= 4 epochs with n >= 6 the serving order changes at least once.
     """
 
-    def __init__(self, store_keys, b, name):
+    def __init__(self, store_keys, b, name, full_store=None):
+        # full_store: every stored row, when only a subset (store_keys) is usable and served (a generator configured
+        # for refinement holds inactive pre-allocated slots)
+        self.full = list(full_store) if full_store is not None else None
         self.S = list(store_keys)
         self.Sset = set(self.S)
         self.n = len(self.S)
@@ -37,7 +40,7 @@ class EpochChecker:
 
     def feed(self, batch_keys, store_after):
         self.nb += 1
-        if sorted(store_after) != sorted(self.S):
+        if sorted(store_after) != sorted(self.full if self.full is not None else self.S):
             self._p("store-multiset-changed", "stored points changed after get_batch #%d" % self.nb)
         if len(batch_keys) != self.b:
             self._p("batch-size", "batch #%d has %d rows, expected %d" % (self.nb, len(batch_keys), self.b))
